@@ -26,13 +26,17 @@ CONSTANT KnownIds
 Rec == ndJsonDeserialize(IOEnv.TRACE)
 N == Len(Rec)
 
-VARIABLES l, cur, kq, tq, kN, tN, ended, failed, errmsg, inTab, afterTab, tabCleared, held, must, pend, onJust, prevOut, prevTimeout, viol, cs, lay, flushed
-vars == <<l, cur, kq, tq, kN, tN, ended, failed, errmsg, inTab, afterTab, tabCleared, held, must, pend, onJust, prevOut, prevTimeout, viol, cs, lay, flushed>>
+VARIABLES l, cur, opt, kq, tq, kN, tN, ended, failed, errmsg, inTab, afterTab, tabCleared, held, must, pend, onJust, prevOut, prevTimeout, viol, cs, lay, flushed
+vars == <<l, cur, opt, kq, tq, kN, tN, ended, failed, errmsg, inTab, afterTab, tabCleared, held, must, pend, onJust, prevOut, prevTimeout, viol, cs, lay, flushed>>
 
 EndEv == [t |-> "E", k |-> ""]
 NoPend == [on |-> FALSE, keys |-> <<>>, interval |-> 0, delay |-> 0, lo |-> 0, hi |-> 0, open |-> FALSE]
 NoMust == [on |-> FALSE, kind |-> "", evs |-> <<>>, on2 |-> FALSE, evs2 |-> <<>>]
 Lost == [pc |-> "lost"]
+\* how the trace was recorded (reset line). slack: by how many us a requested time-out may fall short of the schedule
+\* (the system-call level sees mio's whole milliseconds: the real driver truncates); errtext: whether the error text
+\* the loop returns can be compared with the injected one (at the system-call level the real driver words it itself)
+NoOpt == [slack |-> 0, errtext |-> TRUE]
 
 \* registers: 1 traces, 2 drifts, 3 chords judged, 4 step sends judged, 5 release-all sends judged, 6 timed polls judged,
 \* 7 failing calls judged, 8 polls made with unread events queued, 9 key events read in tablet mode, 10 tablet-on with keys held
@@ -40,7 +44,7 @@ NReg == 10
 Bump(i) == TLCSet(i, TLCGet(i) + 1)
 BumpIf(c, i) == c => Bump(i)
 
-Init == /\ l = 1 /\ cur = "" /\ kq = <<>> /\ tq = <<>> /\ kN = FALSE /\ tN = FALSE /\ ended = FALSE /\ failed = FALSE /\ errmsg = ""
+Init == /\ l = 1 /\ cur = "" /\ opt = NoOpt /\ kq = <<>> /\ tq = <<>> /\ kN = FALSE /\ tN = FALSE /\ ended = FALSE /\ failed = FALSE /\ errmsg = ""
         /\ inTab = FALSE /\ afterTab = FALSE /\ tabCleared = FALSE /\ held = {} /\ must = NoMust /\ pend = NoPend /\ onJust = FALSE /\ prevOut = 0 /\ prevTimeout = FALSE
         /\ viol = {} /\ cs = InitLoop /\ lay = <<>> /\ flushed = FALSE
         /\ \A i \in 1..NReg: TLCSet(i, 0)
@@ -91,12 +95,12 @@ PollTiming(r) ==
   ELSE IF r.timeout = -1 THEN {"C11-repeat-without-timer"}
   ELSE LET lo == pend.lo - r.tin      \* the wake-up instant is in [pend.lo, pend.hi]; the loop read the clock in [prevOut, r.tin]
            hi == (IF pend.open THEN r.tin + pend.delay * 1000 ELSE pend.hi) - prevOut
-       IN IF lo > 0 THEN Tag(~(r.timeout >= lo - 1 /\ r.timeout <= hi + 1), "C11-timeout-off-schedule")
+       IN IF lo > 0 THEN Tag(~(r.timeout >= lo - 1 - opt.slack /\ r.timeout <= hi + 1), "C11-timeout-off-schedule")
           ELSE IF hi <= 0 THEN Tag(~(r.timeout >= 0 /\ r.timeout <= 1000), "C11-overdue-timeout-too-long")
           ELSE Tag(~(r.timeout >= 0 /\ r.timeout <= (IF hi + 1 > 1000 THEN hi + 1 ELSE 1000)), "C11-timeout-off-schedule")
 
 Reset(r) ==
-  /\ cur' = r.id /\ lay' = r.layout /\ cs' = InitLoop
+  /\ cur' = r.id /\ lay' = r.layout /\ cs' = InitLoop /\ opt' = [slack |-> r.slack, errtext |-> r.errtext]
   /\ kq' = <<>> /\ tq' = <<>> /\ kN' = FALSE /\ tN' = FALSE /\ ended' = FALSE /\ failed' = FALSE /\ errmsg' = ""
   /\ inTab' = FALSE /\ afterTab' = FALSE /\ tabCleared' = FALSE /\ held' = {} /\ must' = NoMust /\ pend' = NoPend /\ onJust' = FALSE /\ prevOut' = 0 /\ prevTimeout' = FALSE
   /\ viol' = {} /\ Report(cur, viol) /\ Bump(1)
@@ -108,11 +112,11 @@ ConsumeLine ==
      ELSE IF r.c = "ret" THEN
        /\ viol' = viol \cup Owed
                     \cup Tag(r.panic, "C10-loop-panicked")
-                    \cup Tag(failed /\ (r.ok \/ r.err # errmsg), "C20-error-not-returned")
+                    \cup Tag(failed /\ (r.ok \/ (opt.errtext /\ r.err # errmsg)), "C20-error-not-returned")
                     \cup Tag(~failed /\ ~r.ok /\ ~r.panic, "C10-loop-returned-error")
                     \cup Tag(~failed /\ r.ok /\ ~ended, "C10-loop-returned-before-end-of-device")
        /\ Conf(r) /\ must' = NoMust /\ onJust' = FALSE
-       /\ UNCHANGED <<cur, lay, kq, tq, kN, tN, ended, failed, errmsg, inTab, afterTab, tabCleared, held, pend, prevOut, prevTimeout>>
+       /\ UNCHANGED <<cur, opt, lay, kq, tq, kN, tN, ended, failed, errmsg, inTab, afterTab, tabCleared, held, pend, prevOut, prevTimeout>>
      ELSE
        LET kq1 == kq \o r.arrK   tq1 == tq \o TabQ(r.arrT)
            kN1 == kN \/ r.arrK # <<>>   tN1 == tN \/ r.arrT # <<>>
@@ -120,7 +124,7 @@ ConsumeLine ==
            \* the clock read that arms the timer happens after the send of the firing step (if any) and before the next call
            pendC == IF pend.on /\ pend.open /\ r.c # "send" THEN [pend EXCEPT !.hi = r.tin + pend.delay * 1000, !.open = FALSE] ELSE pend
        IN
-       /\ Conf(r) /\ prevOut' = r.tout /\ cur' = cur /\ lay' = lay
+       /\ Conf(r) /\ prevOut' = r.tout /\ cur' = cur /\ lay' = lay /\ opt' = opt
        /\ failed' = (failed \/ isErr) /\ errmsg' = (IF isErr THEN r.err ELSE errmsg)
        /\ BumpIf(isErr, 7)
        /\ CASE r.c = "register" ->
@@ -210,7 +214,7 @@ ConsumeLine ==
                  /\ UNCHANGED <<ended, inTab, afterTab, tabCleared, onJust>>
 
 Flush == /\ l = N + 1 /\ ~flushed /\ flushed' = TRUE /\ Report(cur, viol)
-         /\ UNCHANGED <<l, cur, kq, tq, kN, tN, ended, failed, errmsg, inTab, afterTab, tabCleared, held, must, pend, onJust, prevOut, prevTimeout, viol, cs, lay>>
+         /\ UNCHANGED <<l, cur, opt, kq, tq, kN, tN, ended, failed, errmsg, inTab, afterTab, tabCleared, held, must, pend, onJust, prevOut, prevTimeout, viol, cs, lay>>
 
 Next == ConsumeLine \/ Flush
 Spec == Init /\ [][Next]_vars
